@@ -312,6 +312,14 @@ def d_c19_mixed_contains():
     assert sv.select('p:-soup-contains-own("cd"):-soup-contains("cd")', s) == []
 
 
+def d_c09_string_continuation_at_end():
+    """A quoted value that ends in a line continuation is the value without it (C09-R6, decoder groups as prefix matches)."""
+    import soupsieve as sv
+    s = soup('<p id="a" title="abc">x</p><p id="b" title="abc\ufffd\n">y</p>')
+    assert ids(sv.select('[title="abc\\\n"]', s)) == ['a']
+    assert sv.compile('[title="abc\\\n"]').selectors == sv.compile('[title="abc"]').selectors
+
+
 DEMOS = {k[2:]: v for k, v in list(globals().items()) if k.startswith('d_')}
 
 if __name__ == '__main__':
